@@ -9,7 +9,7 @@ from pyvc.interp import Interp, Spec, LoopSpec, PyRaise, Frame, ANY_CALL_ERRORS
 from pyvc.runner import Harness
 from pyvc.values import SymSeq, SymSet, SymMap, Rec, Obj, Func, Untracked, UF, StrS, IntS, BoolS, ObjS, RealS, to_z3
 
-from props.C08 import (exc_table, raise_any, only_expression_error, expect_raises, no_inv, all_loops, eval_txn_model,
+from props.C08 import (exc_table, raise_any, only_expression_error, expect_raises, no_inv, all_loops, eval_txn_model, check_items_independent,
                        ANY_EXC, EP, MU, ME, SE)
 
 
@@ -37,10 +37,12 @@ def h_apply_transforms(ctx):
     evaluator_models(sp, only_expression_error)
     I = Interp(ctx, sp)
     fi = find_function(MU + 'apply_transforms')
-    all_loops(fi, sp, lambda n: {'transaction': lambda I_: Obj(I_.fresh('transaction_k', ObjS), 'pydict')})
+    escapes = []
+    all_loops(fi, sp, lambda n: {'transaction': lambda I_: Obj(I_.fresh('transaction_k', ObjS), 'pydict')}, escapes)
     txn = dict_obj(ctx, 'transaction')
     transforms = SymSeq([ctx.fresh('tr.path', z3.SeqSort(StrS)), ctx.fresh('tr.expr', z3.SeqSort(StrS))], 2)
     expect_raises(ctx, I, lambda: I.call_function(fi, [txn, transforms]), [], 'apply_transforms')
+    check_items_independent(ctx, 'apply_transforms', escapes)
 
 
 def h_resolve_dynamic_tags(ctx):
@@ -50,9 +52,11 @@ def h_resolve_dynamic_tags(ctx):
     sp.models['str'] = Func(lambda I, a, k, n: I.ctx.fresh('str', StrS))
     I = Interp(ctx, sp)
     fi = find_function(MU + '_resolve_dynamic_tags')
-    all_loops(fi, sp, lambda n: {'resolved': lambda I_: Untracked()})
+    escapes = []
+    all_loops(fi, sp, lambda n: {'resolved': lambda I_: Untracked()}, escapes)
     tags = SymSeq([ctx.fresh('tags', z3.SeqSort(StrS))])
     expect_raises(ctx, I, lambda: I.call_function(fi, [tags, dict_obj(ctx, 'transaction')]), [], '_resolve_dynamic_tags')
+    check_items_independent(ctx, '_resolve_dynamic_tags', escapes)
 
 
 def h_normalize_merchant(ctx):
@@ -109,7 +113,8 @@ def h_section(name):
         sp.models['dict'] = Func(lambda I, a, k, n: Untracked())
         I = Interp(ctx, sp)
         fi = find_function(SE + name)
-        all_loops(fi, sp, lambda n: {'result': lambda I_: Untracked()})
+        escapes = []
+        all_loops(fi, sp, lambda n: {'result': lambda I_: Untracked()}, escapes)
         smap = lambda nm: SymMap(StrS, {None: ctx.fresh(nm, z3.ArraySort(StrS, StrS))}, dom=ctx.fresh(nm + '.dom', z3.SetSort(StrS)))
         if name == 'evaluate_variables':
             call = lambda: I.call_function(fi, [smap('variable_exprs'), Untracked()], {'num_months': 12, 'existing_vars': Untracked(), 'period_data': Untracked()})
@@ -131,6 +136,7 @@ def h_section(name):
                     sp.abstract_comprehensions.add((fi.qualname, fr.loop_ordinals[id(nd)]))
             call = lambda: I.call_function(fi, [config, groups], {'num_months': 12, 'period_data': Untracked()})
         expect_raises(ctx, I, call, [], name)
+        check_items_independent(ctx, name, escapes)
     return h
 
 
